@@ -779,7 +779,7 @@ class MaterialIndexer(Indexer):
             other_data = other.data
             phase = other.phase
             if phase not in phase_indexer: self._expand_phases(phase)
-            phase_index = phase_indexer(phase)
+            phase_index = self._phase_indexer(phase)
             if self.chemicals is other.chemicals:
                 self.data.rows[phase_index].copy_like(other_data)
             else:
